@@ -230,6 +230,7 @@ fn case_textdiff(kv: &Kv) -> String {
     } else {
         set_deadline(&mut c, dl, via);
     }
+    similar::verif::set_repair_swap(kv.get("repair").copied().unwrap_or("0") == "1");
     let r = if kv["mode"] == "str" {
         let os = std::str::from_utf8(&o).unwrap();
         let ns = std::str::from_utf8(&n).unwrap();
@@ -241,6 +242,7 @@ fn case_textdiff(kv: &Kv) -> String {
         let probes = if dl.is_some() { similar::verif::clock_remove() } else { 0 };
         textdiff_report(&d, &o[..], &n[..], probes)
     };
+    similar::verif::set_repair_swap(false);
     r
 }
 
